@@ -54,7 +54,10 @@ RouteOK(k) == LET rt == Route(k) IN
 RECURSIVE SumLen(_, _)
 SumLen(rt, i) == IF i >= Len(rt) THEN 0 ELSE SegLen(rt[i], rt[i + 1]) + SumLen(rt, i + 1)
 BendCount(rt) == Cardinality({i \in 2..(Len(rt) - 1) : SegDir(rt[i - 1], rt[i]) # SegDir(rt[i], rt[i + 1])})
-RouteCost(k) == SumLen(Route(k), 1) + Recs[k].P * BendCount(Route(k))
+\* a record with P < 0 has the segment penalty |P|/1000: costs are then counted in thousandths
+LK(k) == IF Recs[k].P < 0 THEN 1000 ELSE 1
+PK(k) == IF Recs[k].P < 0 THEN -Recs[k].P ELSE Recs[k].P
+RouteCost(k) == LK(k) * SumLen(Route(k), 1) + PK(k) * BendCount(Route(k))
 \* search window: bounding box of the scene, two units of slack
 LoX(k) == Recs[k].box[1] - 2
 LoY(k) == Recs[k].box[2] - 2
@@ -80,12 +83,12 @@ Step(d) == /\ pos[1] + d[1] \in LoX(k)..HiX(k) /\ pos[2] + d[2] \in LoY(k)..HiY(
            /\ Free(k, pos, d) /\ d # Neg(dir)
            /\ (dir = None => LeaveOK(k, d))
            /\ pos' = <<pos[1] + d[1], pos[2] + d[2]>> /\ dir' = d
-           /\ g' = g + 1 + (IF dir # None /\ d # dir THEN Recs[k].P ELSE 0)
+           /\ g' = g + LK(k) + (IF dir # None /\ d # dir THEN PK(k) ELSE 0)
            /\ UNCHANGED <<k, claim, ok>>
 Next == \E d \in Dirs : Step(d)
 Spec == Init /\ [][Next]_vars
 \* prune everything that cannot beat the claim any more
-Cheaper == g + Abs(pos[1] - Recs[k].dst[1]) + Abs(pos[2] - Recs[k].dst[2]) < claim
+Cheaper == g + LK(k) * (Abs(pos[1] - Recs[k].dst[1]) + Abs(pos[2] - Recs[k].dst[2])) < claim
 ValidRoute == ok
 NoCheaperRoute == ~(pos = Recs[k].dst /\ dir # None /\ ArriveOK(k, dir) /\ g < claim)
 \* reachability of the destination at all (decides the antecedent of C03 when the implementation gave up)
